@@ -395,6 +395,7 @@ func (g *Gen) mergeStates(conds []string, sts []*State) *State {
 		n := g.freshConst(h, g.heaps[h])
 		g.assume(sEq(n, g.iteChain(conds, term)))
 		out.H[h] = n
+		g.readOnlyFacts(h, n)
 	}
 	return out
 }
@@ -486,12 +487,30 @@ func (g *Gen) loopEnv(l *Loop, st *State, subst map[ssa.Value]string) *SpecEnv {
 	env := g.baseEnv()
 	env.st = st
 	env.old = g.entry
-	for _, in := range l.Header.Instrs {
-		if nx, ok := in.(*ssa.Next); ok && !nx.IsString {
-			if rg, ok := nx.Iter.(*ssa.Range); ok {
-				if mt, ok := rg.X.Type().Underlying().(*types.Map); ok {
-					env.iter = g.val(rg)
-					env.iterKeySort = g.L.CellSort(mt.Key())
+	findIter := func(h *ssa.BasicBlock) bool {
+		for _, in := range h.Instrs {
+			if nx, ok := in.(*ssa.Next); ok && !nx.IsString {
+				if rg, ok := nx.Iter.(*ssa.Range); ok {
+					if mt, ok := rg.X.Type().Underlying().(*types.Map); ok {
+						env.iter = g.val(rg)
+						env.iterKeySort = g.L.CellSort(mt.Key())
+						return true
+					}
+				}
+			}
+		}
+		return false
+	}
+	if !findIter(l.Header) {
+		// a loop nested in a loop ranging over a map: visited() / nvisited() / vissum() speak about the innermost such loop
+		var best *Loop
+		for _, l2 := range g.loops {
+			if l2 != l && l2.Blocks[l.Header] && (best == nil || len(l2.Blocks) < len(best.Blocks)) {
+				save := env.iter
+				if findIter(l2.Header) {
+					best = l2
+				} else {
+					env.iter = save
 				}
 			}
 		}
@@ -761,6 +780,10 @@ func (g *Gen) prepass() {
 			g.mapVal(g.entry, ks, vs)
 			g.mapCard(g.entry)
 			g.mapVis(g.entry, ks)
+			if vs == "Slice" && !g.M.BV {
+				g.rawHeap(g.entry, "M_vlen", "(Array Int Int)")
+				g.rawHeap(g.entry, "M_vissum", "(Array Int Int)")
+			}
 			if et, ok := deref(u.Elem()); ok && g.isHeapType(et) {
 				g.heapFor("GOwn")
 			}
